@@ -10,7 +10,7 @@ import fitcase
 
 PROP = 'C17'
 MODEL_OPS = 'PlotM.curve_list (count, draw order), PlotM.curve_val (distance scaling and reddening of the interpolated SED flux)'
-RULE = ('cube packages with 3-8 wavelengths, 2-6 models, single- and multi-aperture, fitted with Fitter at 2-4 of the tabulated wavelengths listed in any order (apertures with repeats), '
+RULE = ('cube packages (stored in mJy, Jy, erg cm-2 s-1 or erg s-1) with 3-8 wavelengths, 2-6 models, single- and multi-aperture, fitted with Fitter at 2-4 of the tabulated wavelengths listed in any order (apertures with repeats), '
         '1-5 fits selected, display mode in {interp, largest, largest+smallest, all}, results passed as object(s) or as file, 1-3 sources per plot() call, memmap on/off; plot(output_dir=None) and the '
         'segments of the returned LineCollection compared with the stored predictions and with the model. non-trivial = multi-aperture package with >= 2 selected fits.')
 EXHAUSTIVE = {'quick': False, 'thorough': False}
@@ -32,6 +32,7 @@ def generate(tier, seed):
         wav = sorted(set(rng.dyadic(0.5, 60.0, 8) for _ in range(nw * 3)))[:nw]
         pkg['wav'] = wav
         pkg['nu'] = pkg['nu'][:len(wav)]
+        pkg['flux_unit'] = ['mJy', 'Jy', 'mJy', 'erg / (cm2 s)', 'erg / s'][k % 5]        # the unit the cube is stored in
         for n in pkg['names']:
             sd = pkg['seds'][n]
             base = [rng.logdyadic(0.01, 100.0, 10) for _ in wav]
@@ -136,6 +137,7 @@ def model_requests(case, im):
             reqs.append(('curve_val', [F(0.0), F(1.0), F(1.0), F(1.0), F(0.0), F(0.0)]))
             continue
         nu = C_LIGHT / (pkg['wav'][j0] * 1e-6)
+        f_mjy = float(pkgcase.to_mjy(pkg, f_mjy, nu))          # the cube may be stored in another unit
         f = f_mjy * 1e-26 * nu
         reqs.append(('curve_val', [F(f), F(kpc_cm), F(10.0 ** sc), F(KPC_CODE), F(av), F(im['law'][j0])]))
     return reqs
@@ -143,7 +145,7 @@ def model_requests(case, im):
 
 def judge(case, im, mo):
     pkg = case['pkg']
-    tags = ['sources=%d' % (1 + len(case.get('more', []))), 'filters-sorted=%s' % (case['fidx'] == sorted(case['fidx'])), 'mode=' + case['mode'], 'nap=%s' % (1 if pkg['aps'] is None else len(pkg['aps'])), 'form=' + case['form'], 'nsel=%d' % case['nsel']]
+    tags = ['unit=' + pkg.get('flux_unit', 'mJy'), 'sources=%d' % (1 + len(case.get('more', []))), 'filters-sorted=%s' % (case['fidx'] == sorted(case['fidx'])), 'mode=' + case['mode'], 'nap=%s' % (1 if pkg['aps'] is None else len(pkg['aps'])), 'form=' + case['form'], 'nsel=%d' % case['nsel']]
     if 'exc' in im:
         if im['exc'] == 'too_small':
             return dict(disagree=[], fail=[], nontrivial=False, tags=tags + ['refused'])
